@@ -339,7 +339,18 @@ def device_set_tests(r):
     return prog([], [], main, ["device_set_test", "negated_test"])
 
 
-ALL = [device_set_tests, computed_range_bounds_body_temps, forlist_inlined_wrapper_calls_out, forlist_nested_and_return, tail_after_inlined_wrapper_calls_out, param_mutation, param_mutation_twice, alias_outlives_source, alias_chain, callee_via_symbolless_function,
+def tail_value_callee_every_tick(r):
+    """an endless loop calls, many times per tick, a function whose last statement is a bare call of a
+    value-returning function: whatever the callee leaves on the chip's stack must be dropped (a leak of one
+    slot per call stops the chip after 512 calls)"""
+    g = fn("g", 1, [], [("return", bin_("+", var("p0"), num(1)))], True)
+    f = fn("f", 0, [], [("expr", call("g", var("g0")))], False)
+    main = [("assign", "g0", num(0)),
+            ("while", num(1), [("expr", call("f"))] * 16 + [wr(call("g", var("g0"))), ("aug", "g0", "+", num(1)), YIELD])]
+    return prog(["g0"], [g, f], main, ["tail_position_call", "called_fn", "value_callee_as_statement", "long_run"])
+
+
+ALL = [tail_value_callee_every_tick, device_set_tests, computed_range_bounds_body_temps, forlist_inlined_wrapper_calls_out, forlist_nested_and_return, tail_after_inlined_wrapper_calls_out, param_mutation, param_mutation_twice, alias_outlives_source, alias_chain, callee_via_symbolless_function,
        callee_via_two_symbolless, nested_loops_innermost_only, while_in_for, inlined_return_register, temp_across_call,
        range_down_exact, bound_reread, early_return_with_inner_call, unused_parameter, return_call_tail,
        suffix_named_inlined, modulo_negative, tiny_constants, tail_into_inlined, tail_from_inlined_host, tail_chain,
